@@ -35,6 +35,7 @@ var verifPairNames = []string{
 	20: "ServeHTTP || ServeHTTP (same backend)",
 	21: "RecordRequest/RecordResponse || GetMetrics",
 	22: "ListBackends || MarkBackendUnhealthy (after an expired window)",
+	23: "Execute || Execute inside a half-open episode (max_requests 3)",
 }
 
 // VerifC12Pair runs two operations of the Helios-owned shared state
@@ -91,9 +92,9 @@ func VerifC12Pair(pair int) {
 		cfg.CircuitBreaker = config.CircuitBreakerConfig{Enabled: true, MaxRequests: 1, IntervalSeconds: 60, TimeoutSeconds: 30, FailureThreshold: 1, SuccessThreshold: 1}
 		lb.setupCircuitBreaker(cfg)
 		cb := lb.circuitBreaker
-		verifrt.Go(func() { cb.Execute(func() error { return verifProbeErr }) })
+		verifrt.Go(func() { cb.Execute(func() error { verifrt.Rendezvous(2); return verifProbeErr }) })
 		if pair == 11 {
-			verifrt.Go(func() { cb.Execute(func() error { return nil }) })
+			verifrt.Go(func() { cb.Execute(func() error { verifrt.Rendezvous(2); return nil }) })
 		} else {
 			verifrt.Go(func() { cb.State(); cb.Counts() })
 		}
@@ -136,6 +137,14 @@ func VerifC12Pair(pair int) {
 	case 20:
 		VerifC13Interleaved()
 		return
+	case 23:
+		// two concurrent trial requests inside a half-open episode that still has budget (max_requests 3)
+		cb := circuitbreaker.NewCircuitBreaker(circuitbreaker.Settings{Name: "verif", MaxRequests: 3, Interval: time.Minute, Timeout: time.Second, FailureThreshold: 1, SuccessThreshold: 3})
+		cb.Execute(func() error { return verifProbeErr })
+		verifrt.Advance(2 * time.Second)
+		cb.Execute(func() error { return nil })
+		verifrt.Go(func() { cb.Execute(func() error { verifrt.Rendezvous(2); return nil }) })
+		verifrt.Go(func() { cb.Execute(func() error { verifrt.Rendezvous(2); return nil }) })
 	case 22:
 		// admin read racing an ejection, on a backend whose earlier window has expired
 		lb := verifBareLB(0)
